@@ -322,7 +322,6 @@ def rule_cd(ctx, R, sector, gauss_site):
             if not ss:
                 continue
             groups = [g for g, grp in (("sector", S_sec), ("lambda", S_lam), ("gauss", S_gau)) if ss & grp]
-            pure = len(groups) == 1 or cb2 is not q
             if len(groups) > 1 and len(ss) and (ss <= S_sec or ss <= S_gau or ss <= S_lam) is False:
                 # an argument mixing groups is legitimate only for values computed by the kernels themselves (v, momenta);
                 # what must stay pure are the *inputs that name a group*: slices/vectors of scalars coming straight from a group routine
